@@ -118,12 +118,15 @@ pub mod nullcrypto {
             None
         }
         fn is_valid_retry(&self, _: ConnectionId, _: &[u8], _: &[u8]) -> bool {
-            false
+            RETRY_VALID.load(std::sync::atomic::Ordering::Relaxed)
         }
         fn export_keying_material(&self, _: &mut [u8], _: &[u8], _: &[u8]) -> Result<(), crypto::ExportKeyingMaterialError> {
             Err(crypto::ExportKeyingMaterialError)
         }
     }
+
+    /// verdict of `NullSession::is_valid_retry` (the Retry integrity tag check), set by replay bodies
+    pub static RETRY_VALID: std::sync::atomic::AtomicBool = std::sync::atomic::AtomicBool::new(false);
 
     pub struct NullHmac;
     impl crypto::HmacKey for NullHmac {
@@ -644,4 +647,43 @@ pub fn handle_packet_tail_native(_x: u8) -> u32 {
     let drained = conn.endpoint_events.iter().filter(|e| matches!(e, EndpointEventInner::Drained)).count();
     assert!(drained == 1, "Drained reported again");
     1
+}
+
+/// Native replay body for the E2 slice queries `e2_retry_acceptance_slice` (C14 / C04) and
+/// `e2_retry_resets_initial_space_slice` (C12): a client with an Initial and its retransmission (1200 bytes each) in flight receives
+/// a Retry.  If the integrity tag verifies and nothing else was authenticated before, the Retry is
+/// followed: the new source CID is adopted and the old Initial no longer counts as in flight.  Otherwise
+/// it is ignored completely.
+pub fn retry_native(valid: bool, authed_before: u8) -> u32 {
+    let mut conn = mk_conn(false, false);
+    nullcrypto::RETRY_VALID.store(valid, std::sync::atomic::Ordering::Relaxed);
+    conn.state = State::Handshake(state::Handshake { rem_cid_set: false, expected_token: Bytes::new(), client_hello: Some(Bytes::from_static(b"client hello")) });
+    let t0 = crate::verif::mk_instant(50, 0).unwrap();
+    let now = crate::verif::mk_instant(51, 0).unwrap();
+    // the first Initial and one retransmission of it are in flight
+    for pn in 0..2u64 {
+        let sent = SentPacket { path_generation: 0, time_sent: t0, size: 1200, ack_eliciting: true, largest_acked: None, retransmits: ThinRetransmits::default(), stream_frames: Default::default() };
+        paths::in_flight_insert(&mut conn.path, &sent);
+        conn.spaces[SpaceId::Initial].sent(pn, sent);
+    }
+    conn.total_authed_packets = authed_before as u64;
+    assert!(paths::in_flight_bytes(&conn.path) == 2400);
+    let new_cid = ConnectionId::new(&[0x77; 8]);
+    let packet = Packet {
+        header: Header::Retry { dst_cid: ConnectionId::new(&[2; 8]), src_cid: new_cid, version: 1 },
+        header_data: Bytes::from_static(&[0xf0, 0, 0, 0, 1]),
+        payload: BytesMut::from(&[1u8, 2, 3, 4, 0, 0, 0, 0, 0, 0, 0, 0, 0, 0, 0, 0, 0, 0, 0, 0][..]),
+    };
+    let r = conn.process_decrypted_packet(now, addr(1, 4433), None, packet);
+    assert!(r.is_ok());
+    let follow = valid && authed_before <= 1;
+    if follow {
+        assert!(conn.retry_src_cid == Some(new_cid), "a valid first Retry was not followed");
+        assert!(paths::in_flight_bytes(&conn.path) == 0, "Initials sent before the Retry still count as in flight ({} bytes)", paths::in_flight_bytes(&conn.path));
+        1
+    } else {
+        assert!(conn.retry_src_cid.is_none(), "an invalid or late Retry was followed");
+        assert!(paths::in_flight_bytes(&conn.path) == 2400);
+        2
+    }
 }
